@@ -5,11 +5,28 @@ one-component problem (IndepVarComp -> component, sources possibly in other unit
 outputs / residuals, the component's own linearized sub-jacobians and the total derivatives (fwd or
 rev) are compared with the documented formula evaluated by the harness (omv/ref/stock.py) and with the
 complex-step derivative of that harness evaluation.
+
+History dimension (a component must give the result for its CURRENT inputs every time it executes; state
+cached inside the component - LU factors, index arrays, interpolation tables - must not leak between
+executions or between setups).  After the first judged run every case goes on with
+  * rerun   : 1-3 more run_model calls on the same problem after re-setting a random subset of the inputs
+              (unconnected inputs partly through prob.set_val on the component input), everything judged again;
+  * resetup : prob.setup() again on the same Problem / component instance, possibly in the other derivative
+              mode and after add_equation / add_var / add_product / add_magnitude / add_eq_output /
+              add_balance / add_spline (or changed options: SplineComp x_interp_val, LinearSystemComp
+              size / vec_size / vectorize_A) on the existing instance, then two more judged runs;
+  * embed   : a fresh instance executes several times inside ONE run: in a feedback cycle
+              in_t = p + k*sum(out_s) (ExecComp) converged by NonlinearBlockGS or Newton(solve_subsystems),
+              or under a DOEDriver with 2-3 list cases; the final state is judged: outputs against the formula
+              at the inputs the component holds, partials there, totals against the coupled chain rule
+              evaluated by the harness from the complex-step jacobian of the formula.
 """
+import copy
+
 import numpy as np
 
 from omv.core import fingerprint
-from omv.gen.compkit import (conv, dense_subjac, worst, perturbed_spread, tol_of, UNIT_CONV, EPS)
+from omv.gen.compkit import (conv, dense_subjac, worst, perturbed_spread, tol_of, UNIT_CONV, EPS, cs_jac, PERT)
 from omv.ref import stock as R
 
 PROPERTY = 'C26'
@@ -32,6 +49,14 @@ ASSUMPTIONS = [
     '|m[i+1]-m[i]| >= 0.05 (kinks of the Akima weights)',
     'duplicate input names within one AddSubtractComp equation and a_name == b_name products are not '
     'generated (the component warns about / does not define them)',
+    'history: the same domain guards are applied to the values the component actually holds (inside a feedback '
+    'cycle they are read back from the problem); a round whose redraws stay outside the domain is not run',
+    'embedded in a cycle the component is the last subsystem, so after NLBGS / Newton(solve_subsystems) its '
+    'outputs were computed from the inputs it holds (no convergence assumption); the reference totals are the '
+    'chain rule through in_t = fac*p + k*sum(out_s) with the formula jacobian at those inputs; their tolerance '
+    'additionally covers 1e-13 relative perturbations of the jacobian entries (backward error of the linear solve)',
+    'calling add_equation/add_var/add_product/add_magnitude/add_eq_output/add_balance/add_spline or changing '
+    'options on an instance that was set up before, followed by a new Problem.setup(), is legal use',
 ]
 MIN_JUDGED = {'quick': 250, 'thorough': 6000}
 COMPS = ['AddSubtractComp', 'MuxComp', 'DotProductComp', 'CrossProductComp', 'MatrixVectorProductComp',
@@ -39,7 +64,12 @@ COMPS = ['AddSubtractComp', 'MuxComp', 'DotProductComp', 'CrossProductComp', 'Ma
 REQUIRED_COUNTERS = ['comp:' + c for c in COMPS] + \
     ['obs:output', 'obs:partials', 'obs:totals-fwd', 'obs:totals-rev', 'obs:residual', 'obs:balance-solved',
      'cell:units', 'cell:multi', 'cell:shared-input', 'cell:default-input', 'cell:balance-ctor-kwargs',
-     'cell:mux-int-shape', 'cell:mux-array-val'] + \
+     'cell:mux-int-shape', 'cell:mux-array-val',
+     'hist:rerun', 'hist:resetup', 'hist:resetup-extended', 'hist:resetup-mode-flip', 'hist:embed-nlbgs',
+     'hist:embed-newton', 'hist:embed-doe', 'hist:set-default-input', 'hist:linsys-vecN-new-A',
+     'hist:linsys-embed-lnbgs', 'hist:linsys-resetup-options', 'hist:balance-resolve',
+     'hist:spline-new-x_interp'] + \
+    ['hist-comp:' + c for c in COMPS] + \
     ['spline:' + m for m in ('slinear', 'lagrange2', 'lagrange3', 'cubic', 'akima', 'bsplines',
                              'scipy_slinear', 'scipy_cubic', 'scipy_quintic')]
 SHARD_TIMEOUT = {'quick': 900, 'thorough': 3600}
@@ -67,7 +97,7 @@ def units_pair(rng, p_units=0.4, p_other=0.6):
 
 
 # ----------------------------------------------------------------------------------------------
-# generic explicit-component flow
+# generic flow: first run, reruns, re-setup, embedding (shared by all components but BalanceComp)
 # ----------------------------------------------------------------------------------------------
 class Ctx(object):
     def __init__(self, case, acc, comp, optclass):
@@ -94,84 +124,496 @@ def _cmp(ctx, obs, label, got, ref, tol):
         ctx.viol(obs, '%s: %s (tol %.3g)' % (label, worst(got, ref), float(np.max(tol))))
 
 
-def run_explicit(ctx, make_comp, ins, outs, ref_fun, seed):
-    """ins: list of dict(name, shape, units, src_units, connected, val); outs: list of dict(name, shape).
-    ref_fun(list of arrays ordered like ins) -> list of arrays ordered like outs."""
-    import openmdao.api as om
-    acc, case = ctx.acc, ctx.case
-    mode = case['mode']
-    xs = [np.array(i['val'], dtype=float).reshape(i['shape']) for i in ins]
-    o0, J0, Do, DJ = perturbed_spread(lambda a: ref_fun(a), xs, seed)
+def gen_hist(hrng):
+    """History plan of one case (drawn from a stream of its own so that the option/value stream of the
+    cases is the one of the first-run-only check)."""
+    return {'rounds': int(hrng.integers(1, 4)), 'subset': bool(hrng.random() < 0.7),
+            'resetup': bool(hrng.random() < 0.75), 'extend': bool(hrng.random() < 0.6),
+            'flip': bool(hrng.random() < 0.5), 'embed': str(pick(hrng, ['nlbgs', 'newton', 'doe'])),
+            'lin': str(pick(hrng, ['direct', 'lnbgs'])), 'auto': bool(hrng.random() < 0.5),
+            'hseed': int(hrng.integers(1, 2 ** 31 - 1))}
+
+
+def spread(fun, xs, seed, post=None, nrep=3):
+    """compkit.perturbed_spread (same draws) with an optional post-processing `post(J) -> dict of arrays`
+    whose spread is measured too, under the operand perturbations AND under 1e-13 relative perturbations
+    of the jacobian entries themselves (backward error of a stable linear solve with them)."""
+    rng = np.random.default_rng(seed)
+    xs = [np.asarray(x, dtype=float) for x in xs]
+    o0, J0 = cs_jac(fun, xs)
+    Do = [np.zeros(o.shape) for o in o0]
+    DJ = [[np.zeros(j.shape) for j in row] for row in J0]
+    P0 = post(J0) if post else {}
+    DP = {k: np.zeros(np.shape(v)) for k, v in P0.items()}
+    for _ in range(nrep):
+        xp = [x * (1.0 + PERT * rng.uniform(-1, 1, size=x.shape)) for x in xs]
+        o1, J1 = cs_jac(fun, xp)
+        for i, o in enumerate(o1):
+            Do[i] = np.maximum(Do[i], np.abs(o - o0[i]))
+        for i, row in enumerate(J1):
+            for k, j in enumerate(row):
+                DJ[i][k] = np.maximum(DJ[i][k], np.abs(j - J0[i][k]))
+        if post:
+            prng = np.random.default_rng(seed + 7 + _)
+            J2 = [[j * (1.0 + PERT * prng.uniform(-1, 1, size=j.shape)) for j in row] for row in J0]
+            for Px in (post(J1), post(J2)):
+                for k, v in Px.items():
+                    DP[k] = np.maximum(DP[k], np.abs(v - P0[k]))
+    return o0, J0, Do, DJ, P0, DP
+
+
+def _inp(name, shape, val, units=None, src_units=None, connected=True, kind='std'):
+    """kind: how later values are drawn ('std' [-2,2], 'lhs' [-5,5], 'rhs' both normalization regimes,
+    'mult' [0.3,3], 'vmag' away from the origin)."""
+    return {'name': name, 'shape': list(shape), 'val': np.asarray(val).tolist(), 'units': units,
+            'src_units': src_units, 'connected': connected, 'kind': kind}
+
+
+def _draw(rng, i):
+    shp = tuple(i['shape'])
+    kind = i.get('kind', 'std')
+    if kind == 'lhs':
+        return rnd(rng, shp, -5, 5)
+    if kind == 'rhs':
+        return _rhs_vals(rng, shp)
+    if kind == 'mult':
+        return rnd(rng, shp, 0.3, 3)
+    if kind == 'A':
+        return _wellcond(rng, shp)
+    v = rnd(rng, shp)
+    if kind == 'vmag':
+        nrm = np.sqrt(np.sum(v * v, axis=-1, keepdims=True))
+        v = np.where(nrm < 0.2, v + 0.5, v)
+    return v
+
+
+def _wellcond(rng, shp):
+    """Random matrices (..., n, n) with a dominant diagonal of random sign (as gen_linsys draws them)."""
+    n = shp[-1]
+    A = rnd(rng, shp, -1, 1)
+    for M in A.reshape(-1, n, n):
+        M += np.diag(np.sign(rng.uniform(-1, 1, n)) * (n + 0.5))
+    return A
+
+
+def _guard(spec, xs):
+    g = spec.get('guard')
+    if g is not None:
+        r = g(xs)
+        if r:
+            return r
+    for i, x in zip(spec['ins'], xs):
+        if i.get('kind') == 'rhs' and np.any(np.abs(np.abs(x) - 2.0) < 0.05):
+            return 'rhs-near-normalization-switch'
+        if i.get('kind') == 'vmag' and np.min(np.sqrt(np.sum(np.asarray(x) ** 2, axis=-1))) < 0.15:
+            return 'vector-magnitude-near-origin'
+        if i.get('kind') == 'A':
+            n = np.shape(x)[-1]
+            for M in np.reshape(x, (-1, n, n)):
+                off = np.sum(np.abs(M), axis=1) - np.abs(np.diag(M))
+                if np.any(np.abs(np.diag(M)) < 0.25 + off * (1.0 if n == 1 else 1.05)):
+                    return 'matrix-not-diagonally-dominant'
+    return None
+
+
+def _redraw(spec, xs, rng, which):
+    """New values for the inputs listed in `which`, inside the domain; None if 30 redraws fail."""
+    for _ in range(30):
+        new = [(_draw(rng, i) if k in which else np.array(xs[k], dtype=float)) for k, i in enumerate(spec['ins'])]
+        if _guard(spec, new) is None:
+            return new
+    return None
+
+
+def _src(k):
+    return 'ivc.v%d' % k
+
+
+def _set_conn(prob, spec, xs, which=None):
+    for k, i in enumerate(spec['ins']):
+        if i['connected'] and (which is None or k in which):
+            fac, off = conv(i['src_units'], i['units'])
+            prob.set_val(_wrt(i, k), xs[k] / fac - off)
+
+
+def _wrt(i, k):
+    """Name of the independent variable behind input k: IndepVarComp output, or the component input itself
+    (served by the automatic IndepVarComp) when the case leaves the inputs unconnected ('auto')."""
+    return ('c.' + i['name']) if i.get('auto') else _src(k)
+
+
+def _wire(prob, ivc, spec, start=0, fb=None):
+    for k, i in enumerate(spec['ins']):
+        if k < start or not i['connected'] or i.get('auto'):
+            continue
+        ivc.add_output('v%d' % k, val=np.ones(i['shape']), units=i['src_units'])
+        if fb is not None and k == fb['t']:
+            prob.model.connect(_src(k), 'fb.p')
+            prob.model.connect('fb.u', 'c.' + i['name'])
+        else:
+            prob.model.connect(_src(k), 'c.' + i['name'])
+
+
+def coupled_totals(J, ins, outs, conn, fb):
+    """d out_m / d v_k for the cycle in_t = fac_t v_t + g*sum(out_s), out = f(in): chain rule with the
+    jacobian J[m][k] of f."""
+    t, s, g = fb['t'], fb['s'], fb['k']
+    Jst = J[s][t]
+    ns, nt = Jst.shape
+    K = g * np.ones((nt, ns))
+    M = np.eye(ns) - Jst @ K
+    res = {}
+    for k in conn:
+        fac = conv(ins[k]['src_units'], ins[k]['units'])[0]
+        Y = np.linalg.solve(M, J[s][k]) * fac            # d out_s / d v_k
+        for m in range(len(outs)):
+            if k == t:
+                res[(m, k)] = J[m][t] @ (fac * np.eye(nt) + K @ Y)
+            else:
+                res[(m, k)] = J[m][k] * fac + J[m][t] @ (K @ Y)
+    return res
+
+
+def coupled_solve_bounds(J, ins, outs, conn, fb, P0, lnbgs):
+    """Round-off bound of the linear solve behind the totals of the cycle.  The harness assembles the same
+    system OpenMDAO solves (unknowns: IndepVarComp outputs v, feedback output u, component outputs o),
+    checks that its solution reproduces the chain-rule reference, and returns per total the bound
+    64 n eps |A^-1| |L||U| |X| of Gaussian elimination with partial pivoting (Higham, Accuracy and Stability
+    of Numerical Algorithms, Thm 9.3/9.4; fwd: A X = E_v, rev: A^T Y = E_o; the larger of both), plus for
+    LinearBlockGS the normwise bound cond(A) * rtol * |X|max of its stopping criterion."""
+    t, s, g = fb['t'], fb['s'], fb['k']
+    sizes_v = [int(np.prod(ins[k]['shape'])) for k in conn]
+    sizes_o = [int(np.prod(o['shape'])) for o in outs]
+    nt = int(np.prod(ins[t]['shape']))
+    off_v = dict(zip(conn, np.concatenate([[0], np.cumsum(sizes_v)])[:-1].astype(int)))
+    nv = int(sum(sizes_v))
+    off_u = nv
+    off_o = (nv + nt + np.concatenate([[0], np.cumsum(sizes_o)])[:-1]).astype(int)
+    n = nv + nt + int(sum(sizes_o))
+    A = np.eye(n)
+    fac_t = conv(ins[t]['src_units'], ins[t]['units'])[0]
+    A[off_u:off_u + nt, off_v[t]:off_v[t] + nt] = -fac_t * np.eye(nt)
+    A[off_u:off_u + nt, off_o[s]:off_o[s] + sizes_o[s]] = -g
+    for m in range(len(outs)):
+        r = slice(off_o[m], off_o[m] + sizes_o[m])
+        A[r, off_u:off_u + nt] = -J[m][t]
+        for k in conn:
+            if k != t:
+                fac = conv(ins[k]['src_units'], ins[k]['units'])[0]
+                A[r, off_v[k]:off_v[k] + sizes_v[conn.index(k)]] = -J[m][k] * fac
+    Ai = np.linalg.inv(A)
+    X = Ai[:, :nv]                                  # A X = E_v
+    no = int(sum(sizes_o))
+    L = Ai.T[:, nv + nt:]                           # A^T L = E_o
+    import scipy.linalg
+    Pm, Lm, Um = scipy.linalg.lu(A)                 # the factorization DirectSolver performs (LAPACK getrf)
+    G = np.maximum(np.abs(A), Pm @ (np.abs(Lm) @ np.abs(Um)))
+    Ef = np.abs(Ai) @ (G @ np.abs(X))
+    Er = np.abs(Ai.T) @ (G.T @ np.abs(L))
+    cnd = float(np.linalg.cond(A)) if lnbgs else 0.0
+    res = {}
+    for m in range(len(outs)):
+        r = slice(off_o[m], off_o[m] + sizes_o[m])
+        rl = slice(off_o[m] - nv - nt, off_o[m] - nv - nt + sizes_o[m])
+        for k in conn:
+            c = slice(off_v[k], off_v[k] + sizes_v[conn.index(k)])
+            if not np.allclose(X[r, c], P0[(m, k)], rtol=1e-9, atol=1e-12 * (1.0 + np.max(np.abs(X)))):
+                raise RuntimeError('harness: chain-rule reference and assembled system disagree')
+            bound = 64 * n * EPS * np.maximum(Ef[r, c], Er[c, rl].T)
+            if lnbgs:
+                bound = bound + 10 * cnd * 1e-15 * max(float(np.max(np.abs(X))), float(np.max(np.abs(L))))
+            res[(m, k)] = bound
+    assert no == L.shape[1]
+    return res
+
+
+def judge_state(ctx, tag, prob, comp, spec, xs, mode, seed, fb=None):
+    """Judge outputs, component partials and totals of the problem's current state against the formula at
+    xs (values of all component inputs, component units).  Returns False after a violation."""
+    acc = ctx.acc
+    ins, outs = spec['ins'], spec['outs']
+    pre = '' if tag == 'first' else tag + ':'
+    conn = [k for k, i in enumerate(ins) if i['connected']]
+    post = (lambda J: coupled_totals(J, ins, outs, conn, fb)) if fb else None
+    o0, J0, Do, DJ, P0, DP = spread(spec['ref'], xs, seed, post)
+    PB = coupled_solve_bounds(J0, ins, outs, conn, fb, P0, fb.get('lnbgs')) if fb else None
+    for k, i in enumerate(ins):
+        got = np.asarray(prob.get_val('c.' + i['name']), dtype=float)
+        if got.size != xs[k].size or not np.allclose(got.reshape(xs[k].shape), xs[k], rtol=1e-12, atol=1e-13):
+            if i['connected'] or i.get('was_set'):
+                raise RuntimeError('harness: input %s not delivered (%s)' % (i['name'], tag))
+            ctx.viol(pre + 'default-input-value', 'unconnected input %s has value %s, documented default %s'
+                     % (i['name'], got.ravel()[:4], xs[k].ravel()[:4]))
+            return False
+    for k, o in enumerate(outs):
+        got = np.asarray(prob.get_val('c.' + o['name']))
+        acc.count('obs:output')
+        if tuple(got.shape) != tuple(o['shape']):
+            ctx.viol(pre + 'output-shape', 'output %s has shape %s, documented %s' % (o['name'], got.shape, o['shape']))
+            continue
+        _cmp(ctx, pre + 'output', 'output ' + o['name'], got, o0[k], tol_of(o0[k], Do[k]))
     try:
-        prob = om.Problem()
-        ivc = prob.model.add_subsystem('ivc', om.IndepVarComp())
-        comp = make_comp()
-        prob.model.add_subsystem('c', comp)
-        for k, i in enumerate(ins):
-            if i['connected']:
-                ivc.add_output('v%d' % k, val=np.ones(i['shape']), units=i['src_units'])
-                prob.model.connect('ivc.v%d' % k, 'c.' + i['name'])
-        if not any(i['connected'] for i in ins):
-            ivc.add_output('unused', 1.0)
-        prob.setup(mode=mode)
-        for k, i in enumerate(ins):
-            if i['connected']:
-                fac, off = conv(i['src_units'], i['units'])
-                prob.set_val('ivc.v%d' % k, xs[k] / fac - off)
-        prob.run_model()
+        tot = prob.compute_totals(of=['c.' + o['name'] for o in outs], wrt=[_wrt(ins[k], k) for k in conn],
+                                  return_format='flat_dict') if conn else {}
     except Exception as e:
-        ctx.viol('raises:' + type(e).__name__, '%s: %s' % (type(e).__name__, str(e)[:300]))
-        return
-    try:
+        ctx.viol(pre + 'compute_totals-raises:' + type(e).__name__, str(e)[:300])
+        return False
+    for oi, o in enumerate(outs):
         for k, i in enumerate(ins):
-            got = np.asarray(prob.get_val('c.' + i['name']), dtype=float)
-            if got.size != xs[k].size or not np.allclose(got.reshape(xs[k].shape), xs[k], rtol=1e-12, atol=1e-13):
-                if i['connected']:
-                    raise RuntimeError('harness: input %s not delivered' % i['name'])
-                ctx.viol('default-input-value', 'unconnected input %s has value %s, documented default %s'
-                         % (i['name'], got.ravel()[:4], xs[k].ravel()[:4]))
-                return
-        for k, o in enumerate(outs):
-            got = np.asarray(prob.get_val('c.' + o['name']))
-            acc.count('obs:output')
-            if tuple(got.shape) != tuple(o['shape']):
-                ctx.viol('output-shape', 'output %s has shape %s, documented %s' % (o['name'], got.shape, o['shape']))
-                continue
-            _cmp(ctx, 'output', 'output ' + o['name'], got, o0[k], tol_of(o0[k], Do[k]))
-        conn = [k for k, i in enumerate(ins) if i['connected']]
-        try:
-            tot = prob.compute_totals(of=['c.' + o['name'] for o in outs], wrt=['ivc.v%d' % k for k in conn],
-                                      return_format='flat_dict') if conn else {}
-        except Exception as e:
-            ctx.viol('compute_totals-raises:' + type(e).__name__, str(e)[:300])
-            return
-        for oi, o in enumerate(outs):
-            for k, i in enumerate(ins):
-                ref = J0[oi][k]
-                tol = tol_of(ref, DJ[oi][k]) + 16 * EPS * np.abs(ref)
+            ref = J0[oi][k]
+            tol = tol_of(ref, DJ[oi][k]) + 16 * EPS * np.abs(ref)
+            if spec.get('partials', True):
                 sj = dense_subjac(comp, o['name'], i['name'])
                 acc.count('obs:partials')
                 if sj is None:
                     if np.any(ref != 0):
-                        ctx.viol('partials-undeclared-nonzero', 'd%s/d%s not declared but nonzero'
+                        ctx.viol(pre + 'partials-undeclared-nonzero', 'd%s/d%s not declared but nonzero'
                                  % (o['name'], i['name']))
                 else:
-                    _cmp(ctx, 'partials', 'partial d%s/d%s' % (o['name'], i['name']), sj, ref, tol)
-                if i['connected']:
+                    _cmp(ctx, pre + 'partials', 'partial d%s/d%s' % (o['name'], i['name']), sj, ref, tol)
+            if i['connected']:
+                acc.count('obs:totals-' + mode)
+                got = tot['c.' + o['name'], _wrt(i, k)]
+                if fb:
+                    rt = P0[(oi, k)]
+                    _cmp(ctx, pre + 'totals-' + mode, 'total d%s/d%s' % (o['name'], i['name']), got, rt,
+                         tol_of(rt, DP[(oi, k)]) + 64 * EPS * np.abs(rt) + PB[(oi, k)])
+                else:
                     fac, _ = conv(i['src_units'], i['units'])
-                    acc.count('obs:totals-' + mode)
-                    _cmp(ctx, 'totals-' + mode, 'total d%s/d%s' % (o['name'], i['name']),
-                         tot['c.' + o['name'], 'ivc.v%d' % k], ref * fac,
+                    _cmp(ctx, pre + 'totals-' + mode, 'total d%s/d%s' % (o['name'], i['name']), got, ref * fac,
                          tol * abs(fac) + 64 * EPS * np.abs(ref * fac))
+    if spec.get('extra') is not None:
+        spec['extra'](ctx, pre, prob, comp, xs, seed)
+    return not ctx.bad
+
+
+def _cleanup(prob):
+    try:
+        prob.cleanup()
+    except Exception:
+        pass
+
+
+def run_flow(ctx, specfn, seed):
+    """First run + history of one case.  specfn(case) -> spec: dict(ins, outs, make, ref, [guard, extend,
+    add_item, partials, extra])."""
+    import openmdao.api as om
+    acc, case = ctx.acc, ctx.case
+    hist = case.get('hist')
+    mode = case['mode']
+    spec = specfn(case)
+    ins = spec['ins']
+    xs = [np.array(i['val'], dtype=float).reshape(i['shape']) for i in ins]
+    r = _guard(spec, xs)
+    if r:
+        acc.skip(r)
+        return False
+    prob = None
+    tag = 'first'
+    try:
+        # ------------------------------------------------------------------ first run
+        try:
+            prob = om.Problem()
+            ivc = prob.model.add_subsystem('ivc', om.IndepVarComp())
+            comp = spec['make']()
+            prob.model.add_subsystem('c', comp)
+            _wire(prob, ivc, spec)
+            ivc.add_output('unused', 1.0)
+            prob.setup(mode=mode)
+            _set_conn(prob, spec, xs)
+            prob.run_model()
+        except Exception as e:
+            ctx.viol('raises:' + type(e).__name__, '%s: %s' % (type(e).__name__, str(e)[:300]))
+            return True
+        if not judge_state(ctx, 'first', prob, comp, spec, xs, mode, seed):
+            return True
         if any(i['connected'] and i['units'] != i['src_units'] for i in ins):
             acc.count('cell:units')
         if any(not i['connected'] for i in ins):
             acc.count('cell:default-input')
+        if not hist:
+            return True
+        acc.count('hist-comp:' + ctx.comp)
+        hrng = np.random.default_rng([hist['hseed'], 1])
+
+        def rerun(tag, spec, xs, mode, r):
+            """re-set a random subset of the inputs, run, judge"""
+            idx = list(range(len(spec['ins'])))
+            which = set(k for k in idx if not hist['subset'] or hrng.random() < 0.6) or {int(pick(hrng, idx))}
+            # unconnected inputs keep their value unless set through the problem (half of the rounds)
+            if hrng.random() < 0.5:
+                which = set(k for k in which if spec['ins'][k]['connected'])
+                if not which:
+                    return xs
+            new = _redraw(spec, xs, hrng, which)
+            if new is None:
+                acc.count('hist:round-outside-domain')
+                return xs
+            _set_conn(prob, spec, new, which)
+            for k in which:
+                i = spec['ins'][k]
+                if not i['connected']:
+                    prob.set_val('c.' + i['name'], new[k])
+                    i['was_set'] = True
+                    acc.count('hist:set-default-input')
+            if spec.get('on_rerun'):
+                spec['on_rerun'](ctx, which, xs, new)
+            prob.run_model()
+            acc.count('hist:' + tag.split('-')[0])
+            judge_state(ctx, tag, prob, comp, spec, new, mode, seed + 31 * (r + 1))
+            return new
+
+        # ------------------------------------------------------------------ reruns
+        tag = 'rerun'
+        for r in range(hist['rounds']):
+            xs = rerun('rerun', spec, xs, mode, r)
+            if ctx.bad:
+                return True
+        # ------------------------------------------------------------------ second setup of the same problem
+        if hist['resetup']:
+            tag = 'resetup'
+            n_old = len(ins)
+            if hist['extend'] and spec.get('extend') is not None:
+                ext = spec['extend'](np.random.default_rng([hist['hseed'], 2]))
+                case2, item = ext[0], ext[1]
+                for cname in ext[2:]:
+                    acc.count(cname)
+                spec2 = specfn(case2)
+                spec2['add_item'](comp, item)
+                if len(spec2['ins']) < n_old or any(a['name'] != b['name'] for a, b in zip(ins, spec2['ins'])):
+                    raise RuntimeError('harness: extension reordered the inputs')
+                _wire(prob, ivc, spec2, start=n_old)
+                spec = spec2
+                acc.count('hist:resetup-extended')
+            mode2 = mode
+            if hist['flip']:
+                mode2 = 'rev' if mode == 'fwd' else 'fwd'
+                acc.count('hist:resetup-mode-flip')
+            prob.setup(mode=mode2)
+            xs2 = [np.array(i['val'], dtype=float).reshape(i['shape']) for i in spec['ins']]
+            new = _redraw(spec, xs2, hrng, set(k for k, i in enumerate(spec['ins']) if i['connected']))
+            if new is None:
+                acc.count('hist:round-outside-domain')
+                new = xs2
+            _set_conn(prob, spec, new)
+            prob.run_model()
+            acc.count('hist:resetup')
+            if not judge_state(ctx, 'resetup', prob, comp, spec, new, mode2, seed + 1000):
+                return True
+            rerun('resetup-rerun', spec, new, mode2, 50)
+            if ctx.bad:
+                return True
+        _cleanup(prob)
+        prob = None
+        # ------------------------------------------------------------------ fresh instance executing repeatedly
+        spec = specfn(case)
+        tag = 'embed'
+        embed(ctx, spec, hist, mode, seed)
+        return True
+    except Exception as e:
+        if tag == 'first' or str(e).startswith('harness:'):
+            raise
+        ctx.viol(tag + ':raises:' + type(e).__name__, '%s: %s' % (type(e).__name__, str(e)[:300]))
+        return True
     finally:
-        try:
-            prob.cleanup()
-        except Exception:
-            pass
+        if prob is not None:
+            _cleanup(prob)
+
+
+def embed(ctx, spec, hist, mode, seed):
+    """A fresh instance that executes several times inside one run_model / run_driver."""
+    import openmdao.api as om
+    acc = ctx.acc
+    ins, outs = spec['ins'], spec['outs']
+    for i in ins:
+        i.pop('auto', None)          # always wired to an IndepVarComp here
+    hrng = np.random.default_rng([hist['hseed'], 3])
+    conn = [k for k, i in enumerate(ins) if i['connected']]
+    base = [np.array(i['val'], dtype=float).reshape(i['shape']) for i in ins]
+    how = hist['embed'] if conn else None
+    if how is None:
+        return
+    prob = om.Problem()
+    try:
+        ivc = prob.model.add_subsystem('ivc', om.IndepVarComp())
+        ivc.add_output('unused', 1.0)
+        if how == 'doe':
+            comp = prob.model.add_subsystem('c', spec['make']())
+            _wire(prob, ivc, spec)
+            pts = []
+            for _ in range(int(hrng.integers(2, 4))):
+                p = _redraw(spec, base, hrng, set(conn))
+                if p is not None:
+                    pts.append(p)
+            if len(pts) < 2:
+                acc.count('hist:round-outside-domain')
+                return
+            cases = []
+            for p in pts:
+                row = []
+                for k in conn:
+                    fac, off = conv(ins[k]['src_units'], ins[k]['units'])
+                    row.append((_src(k), p[k] / fac - off))
+                cases.append(row)
+            for k in conn:
+                prob.model.add_design_var(_src(k))
+            prob.driver = om.DOEDriver(om.ListGenerator(cases))
+            prob.setup(mode=mode)
+            prob.run_driver()
+            acc.count('hist:embed-doe')
+            judge_state(ctx, 'embed-doe', prob, comp, spec, pts[-1], mode, seed + 2000)
+            return
+        # feedback cycle  in_t = p + g*sum(out_s)
+        t = int(pick(hrng, conn))
+        s = int(hrng.integers(len(outs)))
+        ny = int(np.prod(outs[s]['shape']))
+        g = float(np.round((0.05 if hrng.random() < 0.5 else -0.05) / ny, 6))
+        fb = {'t': t, 's': s, 'k': g}
+        prob.model.add_subsystem('fb', om.ExecComp(
+            'u = p + %r*sum(y)' % g,
+            u={'shape': tuple(ins[t]['shape']), 'units': ins[t]['units']},
+            p={'shape': tuple(ins[t]['shape']), 'units': ins[t]['units']},
+            y={'shape': tuple(outs[s]['shape']), 'units': outs[s].get('units')}))
+        comp = prob.model.add_subsystem('c', spec['make']())
+        _wire(prob, ivc, spec, fb=fb)
+        prob.model.connect('c.' + outs[s]['name'], 'fb.y')
+        if hist['lin'] == 'lnbgs' and spec.get('lnbgs_ok'):
+            prob.model.linear_solver = om.LinearBlockGS(maxiter=100, atol=1e-300, rtol=1e-15, iprint=-1)
+            fb['lnbgs'] = True
+            acc.count('hist:linsys-embed-lnbgs')
+        else:
+            prob.model.linear_solver = om.DirectSolver()
+        if how == 'nlbgs':
+            prob.model.nonlinear_solver = om.NonlinearBlockGS(maxiter=12, atol=1e-12, rtol=1e-12, iprint=-1)
+        else:
+            prob.model.nonlinear_solver = om.NewtonSolver(solve_subsystems=True, maxiter=8, atol=1e-12,
+                                                          rtol=1e-12, iprint=-1)
+        prob.setup(mode=mode)
+        p0 = _redraw(spec, base, hrng, set(conn))
+        if p0 is None:
+            acc.count('hist:round-outside-domain')
+            return
+        _set_conn(prob, spec, p0)
+        prob.run_model()
+        nexec = prob.model.nonlinear_solver._iter_count
+        # the values the component holds now
+        cur = [np.asarray(prob.get_val('c.' + i['name']), dtype=float).reshape(i['shape']).copy() for i in ins]
+        for k, i in enumerate(ins):
+            if k != t and not np.allclose(cur[k], p0[k] if i['connected'] else base[k], rtol=1e-12, atol=1e-13):
+                raise RuntimeError('harness: input %s not delivered (embed)' % i['name'])
+        if not all(np.all(np.isfinite(c)) for c in cur) or np.max(np.abs(cur[t] - p0[t])) > 10.0:
+            acc.count('hist:embed-diverged')
+            return
+        if _guard(spec, cur) is not None:
+            acc.count('hist:round-outside-domain')
+            return
+        if np.max(np.abs(cur[t] - p0[t])) == 0.0:
+            acc.count('hist:embed-no-feedback')     # sum(out_s) == 0: nothing circulated
+        acc.count('hist:embed-' + how)
+        acc.count('hist:embed-executions', max(int(nexec), 1))
+        judge_state(ctx, 'embed-' + how, prob, comp, spec, cur, mode, seed + 2000, fb=fb)
+    finally:
+        _cleanup(prob)
 
 
 def finish(ctx, nontrivial=True):
@@ -179,11 +621,6 @@ def finish(ctx, nontrivial=True):
     if not ctx.bad:
         ctx.acc.ok(ctx.fp, nontrivial=nontrivial,
                    sample=({'comp': ctx.comp, 'opts': ctx.case['opts']} if ctx.acc.judged % 41 == 0 else None))
-
-
-def _inp(name, shape, val, units=None, src_units=None, connected=True):
-    return {'name': name, 'shape': list(shape), 'val': np.asarray(val).tolist(), 'units': units,
-            'src_units': src_units, 'connected': connected}
 
 
 # ----------------------------------------------------------------------------------------------
@@ -221,42 +658,78 @@ def units_pair_src(rng, u):
     return str(pick(rng, cands)) if cands and rng.random() < 0.6 else u
 
 
-def judge_addsub(case, acc, seed):
+def spec_addsub(case):
     import openmdao.api as om
     o = case['opts']
     eqs = o['eqs']
-    shared = len(set(n for e in eqs for n in e['ins'])) < sum(len(e['ins']) for e in eqs)
-    oc = ('multi' if len(eqs) > 1 else 'single') + ('+shared' if shared else '') + \
-         ('+units' if any(e['units'] for e in eqs) else '') + ('+ctor' if o['ctor'] else '')
-    ctx = Ctx(case, acc, 'AddSubtractComp', oc)
     names = list(case['pool'])
     ins = []
     for n in names:
         vs, ln, u, su = case['pool'][n]
         ins.append(_inp(n, (vs,) if ln == 1 else (vs, ln), case['vals'][n], u, su))
-    outs = [{'name': e['out'], 'shape': [e['vec_size']] if e['length'] == 1 else [e['vec_size'], e['length']]}
-            for e in eqs]
+    outs = [{'name': e['out'], 'shape': [e['vec_size']] if e['length'] == 1 else [e['vec_size'], e['length']],
+             'units': e['units']} for e in eqs]
+
+    def add_item(c, e):
+        c.add_equation(e['out'], list(e['ins']), vec_size=e['vec_size'], length=e['length'],
+                       scaling_factors=e['sf'], units=e['units'])
 
     def make():
         kw = {'complex': True} if o['complex'] else {}
+        rest = eqs
         if o['ctor']:
             e = eqs[0]
             c = om.AddSubtractComp(output_name=e['out'], input_names=list(e['ins']), vec_size=e['vec_size'],
                                    length=e['length'], scaling_factors=e['sf'], units=e['units'])
             if o['complex']:
                 c.options['complex'] = True
-            return c
-        c = om.AddSubtractComp(**kw)
-        for e in eqs:
-            c.add_equation(e['out'], list(e['ins']), vec_size=e['vec_size'], length=e['length'],
-                           scaling_factors=e['sf'], units=e['units'])
+            rest = eqs[1:]
+        else:
+            c = om.AddSubtractComp(**kw)
+        for e in rest:
+            add_item(c, e)
         return c
 
     def ref(xs):
         d = dict(zip(names, xs))
         return [R.add_subtract([d[n] for n in e['ins']], e['sf']) for e in eqs]
 
-    run_explicit(ctx, make, ins, outs, ref, seed)
+    def extend(rng):
+        c2 = copy.deepcopy(case)
+        pool, eqs2 = c2['pool'], c2['opts']['eqs']
+        if rng.random() < 0.6:
+            e0 = pick(rng, eqs2)
+            vs, ln, u = e0['vec_size'], e0['length'], e0['units']
+        else:
+            vs, ln = int(rng.integers(1, 5)), int(pick(rng, [1, 1, 2, 3]))
+            u = units_pair(rng)[0]
+        nm = []
+        for j in range(int(rng.integers(2, 4))):
+            same = [n for n, t in pool.items() if tuple(t[:3]) == (vs, ln, u) and n not in nm]
+            if same and rng.random() < 0.5:
+                nm.append(str(pick(rng, same)))
+            else:
+                n = 'xin%d' % len(pool)
+                pool[n] = [vs, ln, u, u if u is None else units_pair_src(rng, u)]
+                c2['vals'][n] = rnd(rng, (vs,) if ln == 1 else (vs, ln)).tolist()
+                nm.append(n)
+        sf = None if rng.random() < 0.3 else [float(pick(rng, [1.0, -1.0, 2.5, -0.5, 0.0, 3.0])) for _ in nm]
+        e = {'out': 'xres%d' % len(eqs2), 'ins': nm, 'vec_size': vs, 'length': ln, 'units': u, 'sf': sf}
+        eqs2.append(e)
+        return c2, e
+
+    return {'ins': ins, 'outs': outs, 'make': make, 'ref': ref, 'add_item': add_item, 'extend': extend}
+
+
+def judge_addsub(case, acc, seed):
+    o = case['opts']
+    eqs = o['eqs']
+    shared = len(set(n for e in eqs for n in e['ins'])) < sum(len(e['ins']) for e in eqs)
+    oc = ('multi' if len(eqs) > 1 else 'single') + ('+shared' if shared else '') + \
+         ('+units' if any(e['units'] for e in eqs) else '') + ('+ctor' if o['ctor'] else '')
+    ctx = Ctx(case, acc, 'AddSubtractComp', oc)
+    if not run_flow(ctx, spec_addsub, seed):
+        return
     if len(eqs) > 1:
         acc.count('cell:multi')
     if shared:
@@ -287,18 +760,10 @@ def gen_mux(rng):
             'mode': str(pick(rng, ['fwd', 'rev']))}
 
 
-def judge_mux(case, acc, seed):
+def spec_mux(case):
     import openmdao.api as om
     o = case['opts']
     vs = o['vec_size']
-    oc = 'ndim%d' % max(len(v['shape']) for v in o['vars']) + ('+multi' if len(o['vars']) > 1 else '')
-    if any(v.get('shape_int') for v in o['vars']):
-        oc = 'int-shape'      # input shape given as a plain int
-        acc.count('cell:mux-int-shape')
-    if any(v['by_val'] for v in o['vars']):
-        oc = 'array-val'      # input shape given through an array `val` instead of `shape`
-        acc.count('cell:mux-array-val')
-    ctx = Ctx(case, acc, 'MuxComp', oc)
     ins, outs = [], []
     for v in o['vars']:
         for i in range(vs):
@@ -306,17 +771,20 @@ def judge_mux(case, acc, seed):
             ins.append(_inp(n, v['shape'], case['vals'][n], v['units'], v['src_units']))
         shp = list(v['shape'])
         shp.insert(v['axis'], vs)
-        outs.append({'name': v['name'], 'shape': shp})
+        outs.append({'name': v['name'], 'shape': shp, 'units': v['units']})
+
+    def add_item(c, v):
+        if v['by_val']:
+            c.add_var(v['name'], val=np.ones(tuple(v['shape'])), axis=v['axis'], units=v['units'])
+        elif v.get('shape_int'):
+            c.add_var(v['name'], shape=int(v['shape'][0]), axis=v['axis'], units=v['units'])
+        else:
+            c.add_var(v['name'], shape=tuple(v['shape']), axis=v['axis'], units=v['units'])
 
     def make():
         c = om.MuxComp(vec_size=vs)
         for v in o['vars']:
-            if v['by_val']:
-                c.add_var(v['name'], val=np.ones(tuple(v['shape'])), axis=v['axis'], units=v['units'])
-            elif v.get('shape_int'):
-                c.add_var(v['name'], shape=int(v['shape'][0]), axis=v['axis'], units=v['units'])
-            else:
-                c.add_var(v['name'], shape=tuple(v['shape']), axis=v['axis'], units=v['units'])
+            add_item(c, v)
         return c
 
     def ref(xs):
@@ -326,7 +794,33 @@ def judge_mux(case, acc, seed):
             k += vs
         return out
 
-    run_explicit(ctx, make, ins, outs, ref, seed)
+    def extend(rng):
+        c2 = copy.deepcopy(case)
+        shp = pick(rng, [(1,), (2,), (3,), (2, 2), (2, 3), (3, 1), (2, 1, 2)])
+        u, su = units_pair(rng)
+        v = {'name': 'xv%d' % len(c2['opts']['vars']), 'shape': list(shp), 'axis': int(rng.integers(0, len(shp) + 1)),
+             'units': u, 'src_units': su, 'by_val': bool(rng.random() < 0.3)}
+        v['shape_int'] = bool(len(shp) == 1 and not v['by_val'] and rng.random() < 0.5)
+        for i in range(vs):
+            c2['vals']['%s_%d' % (v['name'], i)] = rnd(rng, shp).tolist()
+        c2['opts']['vars'].append(v)
+        return c2, v
+
+    return {'ins': ins, 'outs': outs, 'make': make, 'ref': ref, 'add_item': add_item, 'extend': extend}
+
+
+def judge_mux(case, acc, seed):
+    o = case['opts']
+    oc = 'ndim%d' % max(len(v['shape']) for v in o['vars']) + ('+multi' if len(o['vars']) > 1 else '')
+    if any(v.get('shape_int') for v in o['vars']):
+        oc = 'int-shape'      # input shape given as a plain int
+        acc.count('cell:mux-int-shape')
+    if any(v['by_val'] for v in o['vars']):
+        oc = 'array-val'      # input shape given through an array `val` instead of `shape`
+        acc.count('cell:mux-array-val')
+    ctx = Ctx(case, acc, 'MuxComp', oc)
+    if not run_flow(ctx, spec_mux, seed):
+        return
     if len(o['vars']) > 1:
         acc.count('cell:multi')
     finish(ctx)
@@ -393,28 +887,28 @@ def gen_products(rng, comp):
             'mode': str(pick(rng, ['fwd', 'rev']))}
 
 
-def judge_products(case, acc, seed):
+def _prod_shape(comp, o, role):
+    vs = o['vec_size']
+    if comp in ('DotProductComp', 'VectorMagnitudeComp'):
+        return (vs, o['length'])
+    if comp == 'CrossProductComp':
+        return (vs, 3) if vs > 1 else (3,)
+    return (vs, o['A_shape'][0], o['A_shape'][1]) if role == 'A' else (vs, o['A_shape'][1])
+
+
+def spec_products(case):
     import openmdao.api as om
     comp = case['comp']
     o = case['opts']
     vs = o['vec_size']
     prods = o['prods']
     names = list(case['pool'])
-    shared = len(set(n for p in prods for n in p['ins'])) < sum(len(p['ins']) for p in prods)
-    anyu = any(t[1] for t in case['pool'].values())
-    oc = ('vec1' if vs == 1 else 'vecN') + ('+multi' if len(prods) > 1 else '') + \
-         ('+shared' if shared else '') + ('+units' if anyu else '')
-    ctx = Ctx(case, acc, comp, oc)
+    pool = case['pool']
     ins = []
     for n in names:
-        role, u, su = case['pool'][n]
-        ins.append(_inp(n, np.shape(case['vals'][n]), case['vals'][n], u, su))
-    if comp == 'VectorMagnitudeComp':
-        for n in names:
-            a = np.array(case['vals'][n])
-            if np.min(np.sqrt(np.sum(a * a, axis=-1))) < 0.15:
-                acc.skip('vector-magnitude-near-origin')
-                return
+        role, u, su = pool[n]
+        ins.append(_inp(n, np.shape(case['vals'][n]), case['vals'][n], u, su,
+                        kind='vmag' if comp == 'VectorMagnitudeComp' else 'std'))
     outs = []
     for p in prods:
         if comp in ('DotProductComp', 'VectorMagnitudeComp'):
@@ -423,48 +917,51 @@ def judge_products(case, acc, seed):
             shp = [vs, 3] if vs > 1 else [3]
         else:
             shp = [vs, o['A_shape'][0]] if vs > 1 else [o['A_shape'][0]]
-        outs.append({'name': p['out'], 'shape': shp})
+        outs.append({'name': p['out'], 'shape': shp, 'units': p['out_units']})
+
+    def add_item(c, p):
+        if comp == 'DotProductComp':
+            c.add_product(p['out'], a_name=p['ins'][0], b_name=p['ins'][1], c_units=p['out_units'],
+                          a_units=pool[p['ins'][0]][1], b_units=pool[p['ins'][1]][1], vec_size=vs,
+                          length=o['length'])
+        elif comp == 'CrossProductComp':
+            c.add_product(p['out'], a_name=p['ins'][0], b_name=p['ins'][1], c_units=p['out_units'],
+                          a_units=pool[p['ins'][0]][1], b_units=pool[p['ins'][1]][1], vec_size=vs)
+        elif comp == 'MatrixVectorProductComp':
+            c.add_product(p['out'], A_name=p['ins'][0], x_name=p['ins'][1], b_units=p['out_units'],
+                          A_units=pool[p['ins'][0]][1], x_units=pool[p['ins'][1]][1], vec_size=vs,
+                          A_shape=tuple(o['A_shape']))
+        else:
+            c.add_magnitude(p['out'], p['ins'][0], units=pool[p['ins'][0]][1], vec_size=vs,
+                            length=o['length'])
 
     def make():
         p0 = prods[0]
-        pool = case['pool']
         if comp == 'DotProductComp':
             kw = dict(vec_size=vs, length=o['length'])
             if o['custom_first']:
                 kw.update(a_name=p0['ins'][0], b_name=p0['ins'][1], c_name=p0['out'])
             kw.update(a_units=pool[p0['ins'][0]][1], b_units=pool[p0['ins'][1]][1], c_units=p0['out_units'])
             c = om.DotProductComp(**kw)
-            for p in prods[1:]:
-                c.add_product(p['out'], a_name=p['ins'][0], b_name=p['ins'][1], c_units=p['out_units'],
-                              a_units=pool[p['ins'][0]][1], b_units=pool[p['ins'][1]][1], vec_size=vs,
-                              length=o['length'])
         elif comp == 'CrossProductComp':
             kw = dict(vec_size=vs)
             if o['custom_first']:
                 kw.update(a_name=p0['ins'][0], b_name=p0['ins'][1], c_name=p0['out'])
             kw.update(a_units=pool[p0['ins'][0]][1], b_units=pool[p0['ins'][1]][1], c_units=p0['out_units'])
             c = om.CrossProductComp(**kw)
-            for p in prods[1:]:
-                c.add_product(p['out'], a_name=p['ins'][0], b_name=p['ins'][1], c_units=p['out_units'],
-                              a_units=pool[p['ins'][0]][1], b_units=pool[p['ins'][1]][1], vec_size=vs)
         elif comp == 'MatrixVectorProductComp':
             kw = dict(vec_size=vs, A_shape=tuple(o['A_shape']))
             if o['custom_first']:
                 kw.update(A_name=p0['ins'][0], x_name=p0['ins'][1], b_name=p0['out'])
             kw.update(A_units=pool[p0['ins'][0]][1], x_units=pool[p0['ins'][1]][1], b_units=p0['out_units'])
             c = om.MatrixVectorProductComp(**kw)
-            for p in prods[1:]:
-                c.add_product(p['out'], A_name=p['ins'][0], x_name=p['ins'][1], b_units=p['out_units'],
-                              A_units=pool[p['ins'][0]][1], x_units=pool[p['ins'][1]][1], vec_size=vs,
-                              A_shape=tuple(o['A_shape']))
         else:
             kw = dict(vec_size=vs, length=o['length'], units=pool[p0['ins'][0]][1])
             if o['custom_first']:
                 kw.update(in_name=p0['ins'][0], mag_name=p0['out'])
             c = om.VectorMagnitudeComp(**kw)
-            for p in prods[1:]:
-                c.add_magnitude(p['out'], p['ins'][0], units=pool[p['ins'][0]][1], vec_size=vs,
-                                length=o['length'])
+        for p in prods[1:]:
+            add_item(c, p)
         return c
 
     def ref(xs):
@@ -482,7 +979,49 @@ def judge_products(case, acc, seed):
             out.append(np.reshape(r, od['shape']))
         return out
 
-    run_explicit(ctx, make, ins, outs, ref, seed)
+    def extend(rng):
+        c2 = copy.deepcopy(case)
+        pool2 = c2['pool']
+        roles = ('A', 'x') if comp == 'MatrixVectorProductComp' else \
+            (('a', 'b') if comp != 'VectorMagnitudeComp' else ('a',))
+        nm = []
+        for role in roles:
+            same = [n for n, t in pool2.items() if t[0] == role and n not in nm]
+            if same and rng.random() < 0.4:
+                nm.append(str(pick(rng, same)))
+            else:
+                n = 'x%sin%d' % (role.lower(), len(pool2))
+                u, su = units_pair(rng)
+                pool2[n] = [role, u, su]
+                v = rnd(rng, _prod_shape(comp, o, role))
+                if comp == 'VectorMagnitudeComp':
+                    nrm = np.sqrt(np.sum(v * v, axis=-1, keepdims=True))
+                    v = np.where(nrm < 0.2, v + 0.5, v)
+                c2['vals'][n] = v.tolist()
+                nm.append(n)
+        if comp == 'VectorMagnitudeComp':
+            ou = pool2[nm[0]][1]
+        else:
+            ou = str(pick(rng, UNITS)) if rng.random() < 0.3 else None
+        p = {'out': 'xout%d' % len(c2['opts']['prods']), 'ins': nm, 'out_units': ou}
+        c2['opts']['prods'].append(p)
+        return c2, p
+
+    return {'ins': ins, 'outs': outs, 'make': make, 'ref': ref, 'add_item': add_item, 'extend': extend}
+
+
+def judge_products(case, acc, seed):
+    comp = case['comp']
+    o = case['opts']
+    vs = o['vec_size']
+    prods = o['prods']
+    shared = len(set(n for p in prods for n in p['ins'])) < sum(len(p['ins']) for p in prods)
+    anyu = any(t[1] for t in case['pool'].values())
+    oc = ('vec1' if vs == 1 else 'vecN') + ('+multi' if len(prods) > 1 else '') + \
+         ('+shared' if shared else '') + ('+units' if anyu else '')
+    ctx = Ctx(case, acc, comp, oc)
+    if not run_flow(ctx, spec_products, seed):
+        return
     if len(prods) > 1:
         acc.count('cell:multi')
     if shared:
@@ -549,44 +1088,59 @@ def _eq_optclass(outs):
     return '+'.join(f) or 'plain'
 
 
-def judge_eqconstraint(case, acc, seed):
+def _ext_eq_output(case, rng, comp):
+    """One more equation for EQConstraintComp / BalanceComp (a fresh gen_eq draw under a new name)."""
+    c2 = copy.deepcopy(case)
+    o = gen_eq(rng, comp)['opts']['outs'][0]
+    o['name'] = 'xq%d' % len(c2['opts']['outs'])
+    c2['opts']['outs'].append(o)
+    return c2, o
+
+
+def spec_eqconstraint(case):
     import openmdao.api as om
     outs_o = case['opts']['outs']
-    ctx = Ctx(case, acc, 'EQConstraintComp', _eq_optclass(outs_o))
     ins, outs, layout = [], [], []
     for o in outs_o:
         ln, rn, mn = _eq_names(o)
         shp = o['shape']
-        ins.append(_inp(ln, shp, o['lhs'], o['eq_units'], o['src_units']))
+        ins.append(_inp(ln, shp, o['lhs'], o['eq_units'], o['src_units'], kind='lhs'))
         if o['connect_rhs']:
-            ins.append(_inp(rn, shp, o['rhs'], o['eq_units'], o['src_units']))
+            ins.append(_inp(rn, shp, o['rhs'], o['eq_units'], o['src_units'], kind='rhs'))
         else:
-            ins.append(_inp(rn, shp, o['rhs_val'] * np.ones(shp), o['eq_units'], None, connected=False))
+            ins.append(_inp(rn, shp, o['rhs_val'] * np.ones(shp), o['eq_units'], None, connected=False, kind='rhs'))
         if o['use_mult']:
             if o['connect_mult']:
-                ins.append(_inp(mn, shp, o['mult'], None, None))
+                ins.append(_inp(mn, shp, o['mult'], None, None, kind='mult'))
             else:
-                ins.append(_inp(mn, shp, o['mult_val'] * np.ones(shp), None, None, connected=False))
+                ins.append(_inp(mn, shp, o['mult_val'] * np.ones(shp), None, None, connected=False, kind='mult'))
         layout.append(3 if o['use_mult'] else 2)
-        outs.append({'name': o['name'], 'shape': shp})
+        outs.append({'name': o['name'], 'shape': shp, 'units': None})
+
+    def kwargs(o):
+        ln, rn, mn = _eq_names(o)
+        kw = dict(eq_units=o['eq_units'], rhs_val=o['rhs_val'], use_mult=o['use_mult'], mult_val=o['mult_val'],
+                  normalize=o['normalize'], add_constraint=o['add_constraint'])
+        if o['custom_names']:
+            kw.update(lhs_name=ln, rhs_name=rn, mult_name=mn)
+        if o['shape_by'] == 'shape':
+            kw['shape'] = tuple(o['shape'])
+        else:
+            kw['val'] = np.ones(tuple(o['shape']))
+        return kw
+
+    def add_item(c, o):
+        c.add_eq_output(o['name'], **kwargs(o))
 
     def make():
-        def kwargs(o):
-            ln, rn, mn = _eq_names(o)
-            kw = dict(eq_units=o['eq_units'], rhs_val=o['rhs_val'], use_mult=o['use_mult'], mult_val=o['mult_val'],
-                      normalize=o['normalize'], add_constraint=o['add_constraint'])
-            if o['custom_names']:
-                kw.update(lhs_name=ln, rhs_name=rn, mult_name=mn)
-            if o['shape_by'] == 'shape':
-                kw['shape'] = tuple(o['shape'])
-            else:
-                kw['val'] = np.ones(tuple(o['shape']))
-            return kw
         if case['opts']['ctor']:
-            return om.EQConstraintComp(outs_o[0]['name'], **kwargs(outs_o[0]))
-        c = om.EQConstraintComp()
-        for o in outs_o:
-            c.add_eq_output(o['name'], **kwargs(o))
+            c = om.EQConstraintComp(outs_o[0]['name'], **kwargs(outs_o[0]))
+            rest = outs_o[1:]
+        else:
+            c = om.EQConstraintComp()
+            rest = outs_o
+        for o in rest:
+            add_item(c, o)
         return c
 
     def ref(xs):
@@ -598,7 +1152,15 @@ def judge_eqconstraint(case, acc, seed):
             k += n
         return res
 
-    run_explicit(ctx, make, ins, outs, ref, seed)
+    return {'ins': ins, 'outs': outs, 'make': make, 'ref': ref, 'add_item': add_item,
+            'extend': lambda rng: _ext_eq_output(case, rng, 'EQConstraintComp')}
+
+
+def judge_eqconstraint(case, acc, seed):
+    outs_o = case['opts']['outs']
+    ctx = Ctx(case, acc, 'EQConstraintComp', _eq_optclass(outs_o))
+    if not run_flow(ctx, spec_eqconstraint, seed):
+        return
     if len(outs_o) > 1:
         acc.count('cell:multi')
     finish(ctx)
@@ -610,6 +1172,7 @@ def judge_eqconstraint(case, acc, seed):
 def judge_balance(case, acc, seed):
     import openmdao.api as om
     outs_o = case['opts']['outs']
+    hist = case.get('hist')
     ctor_kwargs = bool(case['opts']['ctor'] and outs_o[0].get('units_by_kwargs'))
     ctx = Ctx(case, acc, 'BalanceComp', 'ctor-kwargs' if ctor_kwargs else _eq_optclass(outs_o))
     if ctor_kwargs:
@@ -619,25 +1182,26 @@ def judge_balance(case, acc, seed):
     def guess(inputs, outputs, residuals):
         guess_calls.append(1)
 
+    def kwargs(o):
+        ln, rn, mn = _eq_names(o)
+        rhs_val = o['rhs_val'] * np.ones(tuple(o['shape'])) if o.get('rhs_array') else o['rhs_val']
+        kw = dict(eq_units=o['eq_units'], rhs_val=rhs_val, use_mult=o['use_mult'], mult_val=o['mult_val'],
+                  normalize=o['normalize'])
+        if o['custom_names']:
+            kw.update(lhs_name=ln, rhs_name=rn, mult_name=mn)
+        if o.get('units_by_kwargs'):
+            kw.pop('eq_units')
+            kw['lhs_kwargs'] = {'units': o['eq_units']}
+            kw['rhs_kwargs'] = {'units': o['eq_units']}
+        if o.get('rhs_array'):
+            pass                      # shape comes from rhs_val
+        elif o['shape_by'] == 'shape':
+            kw['shape'] = tuple(o['shape'])
+        else:
+            kw['val'] = np.ones(tuple(o['shape']))
+        return kw
+
     def make(with_guess=False):
-        def kwargs(o):
-            ln, rn, mn = _eq_names(o)
-            rhs_val = o['rhs_val'] * np.ones(tuple(o['shape'])) if o.get('rhs_array') else o['rhs_val']
-            kw = dict(eq_units=o['eq_units'], rhs_val=rhs_val, use_mult=o['use_mult'], mult_val=o['mult_val'],
-                      normalize=o['normalize'])
-            if o['custom_names']:
-                kw.update(lhs_name=ln, rhs_name=rn, mult_name=mn)
-            if o.get('units_by_kwargs'):
-                kw.pop('eq_units')
-                kw['lhs_kwargs'] = {'units': o['eq_units']}
-                kw['rhs_kwargs'] = {'units': o['eq_units']}
-            if o.get('rhs_array'):
-                pass                      # shape comes from rhs_val
-            elif o['shape_by'] == 'shape':
-                kw['shape'] = tuple(o['shape'])
-            else:
-                kw['val'] = np.ones(tuple(o['shape']))
-            return kw
         ckw = {'guess_func': guess} if with_guess else {}
         if case['opts']['ctor']:
             return om.BalanceComp(outs_o[0]['name'], **kwargs(outs_o[0]), **ckw)
@@ -646,139 +1210,251 @@ def judge_balance(case, acc, seed):
             c.add_balance(o['name'], **kwargs(o))
         return c
 
-    # ---- part 1: residuals and partials
-    try:
-        prob = om.Problem()
-        ivc = prob.model.add_subsystem('ivc', om.IndepVarComp())
-        bal = prob.model.add_subsystem('bal', make())
-        xs, names, meta = [], [], []
-        for o in outs_o:
+    def layout(outs_l):
+        """inputs of the component in order: dicts(name, shape, val, units, src_units, connected, kind)"""
+        items = []
+        for o in outs_l:
             ln, rn, mn = _eq_names(o)
             shp = tuple(o['shape'])
-            items = [(ln, o['lhs'], o['eq_units'], True), (rn, o['rhs'] if o['connect_rhs'] else
-                                                            (o['rhs_val'] * np.ones(shp)).tolist(),
-                                                            o['eq_units'], o['connect_rhs'])]
+            items.append(_inp(ln, shp, o['lhs'], o['eq_units'], o['src_units'], True, 'lhs'))
+            items.append(_inp(rn, shp, o['rhs'] if o['connect_rhs'] else o['rhs_val'] * np.ones(shp), o['eq_units'],
+                              o['src_units'] if o['connect_rhs'] else None, o['connect_rhs'], 'rhs'))
             if o['use_mult']:
-                items.append((mn, o['mult'] if o['connect_mult'] else (o['mult_val'] * np.ones(shp)).tolist(), None,
-                              o['connect_mult']))
-            for (n, v, u, connected) in items:
-                k = len(names)
-                if connected:
-                    su = o['src_units'] if u is not None else None
-                    ivc.add_output('v%d' % k, val=np.ones(shp), units=su)
-                    prob.model.connect('ivc.v%d' % k, 'bal.' + n)
-                else:
-                    su = None
-                names.append(n)
-                xs.append(np.array(v, dtype=float).reshape(shp))
-                meta.append((u, su, connected))
-        if not any(m[2] for m in meta):
-            ivc.add_output('unused', 1.0)
-        prob.setup()
-        for k, (u, su, connected) in enumerate(meta):
-            if connected:
-                fac, off = conv(su, u)
+                items.append(_inp(mn, shp, o['mult'] if o['connect_mult'] else o['mult_val'] * np.ones(shp), None,
+                                  None, o['connect_mult'], 'mult'))
+        return items
+
+    def wire(prob, ivc, items, start=0):
+        for k, i in enumerate(items):
+            if k >= start and i['connected']:
+                ivc.add_output('v%d' % k, val=np.ones(i['shape']), units=i['src_units'])
+                prob.model.connect('ivc.v%d' % k, 'bal.' + i['name'])
+
+    def put(prob, items, xs, which=None):
+        for k, i in enumerate(items):
+            if i['connected'] and (which is None or k in which):
+                fac, off = conv(i['src_units'], i['units'])
                 prob.set_val('ivc.v%d' % k, xs[k] / fac - off)
-        for o in outs_o:
-            prob.set_val('bal.' + o['name'], np.array(o['state']).reshape(tuple(o['shape'])))
-        prob.run_model()
+
+    def ref_of(outs_l):
+        def ref(a):
+            res, k = [], 0
+            for o in outs_l:
+                n = 3 if o['use_mult'] else 2
+                res.append(R.balance_residual(a[k], a[k + 1], a[k + 2] if n == 3 else None, o['normalize']))
+                k += n
+            return res
+        return ref
+
+    def judge(tag, prob, bal, outs_l, items, xs, sd):
+        pre = '' if tag == 'first' else tag + ':'
         prob.model.run_apply_nonlinear()
         prob.model.run_linearize()
+        o0, J0, Do, DJ = perturbed_spread(ref_of(outs_l), xs, sd)
+        for k, i in enumerate(items):
+            n = i['name']
+            got = np.asarray(prob.get_val('bal.' + n), dtype=float)
+            if got.size != xs[k].size or not np.allclose(got.reshape(xs[k].shape), xs[k], rtol=1e-12, atol=1e-13):
+                if i['connected']:
+                    raise RuntimeError('harness: input %s not delivered' % n)
+                ctx.viol(pre + 'default-input-value', 'unconnected input %s has value %s, documented default %s'
+                         % (n, got.ravel()[:4], xs[k].ravel()[:4]))
+        for oi, o in enumerate(outs_l):
+            acc.count('obs:residual')
+            res = np.asarray(bal._residuals[o['name']], dtype=float)
+            _cmp(ctx, pre + 'residual', 'residual ' + o['name'], res, o0[oi], tol_of(o0[oi], Do[oi]))
+            for k, i in enumerate(items):
+                n = i['name']
+                ref_j = J0[oi][k]
+                sj = dense_subjac(bal, o['name'], n)
+                acc.count('obs:partials')
+                if sj is None:
+                    if np.any(ref_j != 0):
+                        ctx.viol(pre + 'partials-undeclared-nonzero',
+                                 'dR_%s/d%s not declared but nonzero' % (o['name'], n))
+                else:
+                    _cmp(ctx, pre + 'partials', 'partial dR_%s/d%s' % (o['name'], n), sj, ref_j,
+                         tol_of(ref_j, DJ[oi][k]) + 16 * EPS * np.abs(ref_j))
+            sj = dense_subjac(bal, o['name'], o['name'])
+            if sj is not None and np.any(sj != 0):
+                ctx.viol(pre + 'partials-state-nonzero',
+                         'dR/dstate should be zero (residual does not depend on the state)')
+
+    # ---- part 1: residuals and partials
+    prob = None
+    tag = 'first'
+    try:
+        try:
+            prob = om.Problem()
+            ivc = prob.model.add_subsystem('ivc', om.IndepVarComp())
+            bal = prob.model.add_subsystem('bal', make())
+            items = layout(outs_o)
+            xs = [np.array(i['val'], dtype=float).reshape(i['shape']) for i in items]
+            wire(prob, ivc, items)
+            ivc.add_output('unused', 1.0)
+            prob.setup()
+            put(prob, items, xs)
+            for o in outs_o:
+                prob.set_val('bal.' + o['name'], np.array(o['state']).reshape(tuple(o['shape'])))
+            prob.run_model()
+            prob.model.run_apply_nonlinear()
+            prob.model.run_linearize()
+        except Exception as e:
+            ctx.viol('raises:' + type(e).__name__, '%s: %s' % (type(e).__name__, str(e)[:300]))
+            finish(ctx)
+            return
+        judge('first', prob, bal, outs_o, items, xs, seed)
+        if any(not i['connected'] for i in items):
+            acc.count('cell:default-input')
+        if any(i['connected'] and i['units'] != i['src_units'] for i in items):
+            acc.count('cell:units')
+        if hist and not ctx.bad:
+            acc.count('hist-comp:BalanceComp')
+            hrng = np.random.default_rng([hist['hseed'], 1])
+            spec_l = {'ins': items}
+            tag = 'rerun'
+            outs_l = outs_o
+            for r in range(hist['rounds'] + (2 if hist['resetup'] else 0)):
+                if r == hist['rounds']:
+                    # second setup of the same problem, possibly with one more balance on the same instance
+                    tag = 'resetup'
+                    if hist['extend']:
+                        case2, o_new = _ext_eq_output(case, np.random.default_rng([hist['hseed'], 2]), 'BalanceComp')
+                        bal.add_balance(o_new['name'], **kwargs(o_new))
+                        n_old = len(items)
+                        outs_l = case2['opts']['outs']
+                        items = layout(outs_l)
+                        wire(prob, ivc, items, start=n_old)
+                        spec_l = {'ins': items}
+                        acc.count('hist:resetup-extended')
+                    prob.setup(mode='fwd' if hist['flip'] else 'rev')
+                    xs = [np.array(i['val'], dtype=float).reshape(i['shape']) for i in items]
+                    which = set(k for k, i in enumerate(items) if i['connected'])
+                    acc.count('hist:resetup')
+                else:
+                    which = set(k for k, i in enumerate(items)
+                                if i['connected'] and (not hist['subset'] or hrng.random() < 0.6))
+                new = _redraw(spec_l, xs, hrng, which)
+                if new is None:
+                    acc.count('hist:round-outside-domain')
+                    new = xs
+                    which = set()
+                put(prob, items, new, which)
+                if tag == 'resetup' or hrng.random() < 0.7:
+                    for o in outs_l:
+                        prob.set_val('bal.' + o['name'], rnd(hrng, tuple(o['shape']), -3, 3))
+                prob.run_model()
+                if tag == 'rerun':
+                    acc.count('hist:rerun')
+                xs = new
+                judge(tag, prob, bal, outs_l, items, xs, seed + 31 * (r + 1))
+                if ctx.bad:
+                    break
     except Exception as e:
-        ctx.viol('raises:' + type(e).__name__, '%s: %s' % (type(e).__name__, str(e)[:300]))
-        finish(ctx)
-        return
-
-    def ref(a):
-        res, k = [], 0
-        for o in outs_o:
-            n = 3 if o['use_mult'] else 2
-            res.append(R.balance_residual(a[k], a[k + 1], a[k + 2] if n == 3 else None, o['normalize']))
-            k += n
-        return res
-
-    o0, J0, Do, DJ = perturbed_spread(ref, xs, seed)
-    for k, n in enumerate(names):
-        got = np.asarray(prob.get_val('bal.' + n), dtype=float)
-        if got.size != xs[k].size or not np.allclose(got.reshape(xs[k].shape), xs[k], rtol=1e-12, atol=1e-13):
-            if meta[k][2]:
-                raise RuntimeError('harness: input %s not delivered' % n)
-            ctx.viol('default-input-value', 'unconnected input %s has value %s, documented default %s'
-                     % (n, got.ravel()[:4], xs[k].ravel()[:4]))
-    for oi, o in enumerate(outs_o):
-        acc.count('obs:residual')
-        res = np.asarray(bal._residuals[o['name']], dtype=float)
-        _cmp(ctx, 'residual', 'residual ' + o['name'], res, o0[oi], tol_of(o0[oi], Do[oi]))
-        for k, n in enumerate(names):
-            ref_j = J0[oi][k]
-            sj = dense_subjac(bal, o['name'], n)
-            acc.count('obs:partials')
-            if sj is None:
-                if np.any(ref_j != 0):
-                    ctx.viol('partials-undeclared-nonzero', 'dR_%s/d%s not declared but nonzero' % (o['name'], n))
-            else:
-                _cmp(ctx, 'partials', 'partial dR_%s/d%s' % (o['name'], n), sj, ref_j,
-                     tol_of(ref_j, DJ[oi][k]) + 16 * EPS * np.abs(ref_j))
-        sj = dense_subjac(bal, o['name'], o['name'])
-        if sj is not None and np.any(sj != 0):
-            ctx.viol('partials-state-nonzero', 'dR/dstate should be zero (residual does not depend on the state)')
-    if any(not m[2] for m in meta):
-        acc.count('cell:default-input')
-    if any(m[2] and m[0] != m[1] for m in meta):
-        acc.count('cell:units')
-    prob.cleanup()
-
+        if tag == 'first' or str(e).startswith('harness:'):
+            raise
+        ctx.viol(tag + ':raises:' + type(e).__name__, '%s: %s' % (type(e).__name__, str(e)[:300]))
+    finally:
+        if prob is not None:
+            _cleanup(prob)
     # ---- part 2: the documented use: drive lhs = a*x + b to rhs with Newton; x* = (rhs/mult - b)/a
     o = outs_o[0]
     a, b = case['solve']['a'], case['solve']['b']
     shp = tuple(o['shape'])
     ln, rn, mn = _eq_names(o)
+    smode = case['mode'] if hist else None
+    p = None
+    tag = 'solve'
     try:
-        p = om.Problem()
-        iv = p.model.add_subsystem('ivc', om.IndepVarComp())
-        iv.add_output('r', val=np.ones(shp), units=o['eq_units'])
-        if o['use_mult']:
-            iv.add_output('m', val=np.ones(shp))
-        single = dict(outs_o=[o])
-        c2 = om.BalanceComp(guess_func=guess)
-        kw = dict(eq_units=o['eq_units'], use_mult=o['use_mult'], normalize=o['normalize'], val=np.ones(shp))
-        if o['custom_names']:
-            kw.update(lhs_name=ln, rhs_name=rn, mult_name=mn)
-        c2.add_balance(o['name'], **kw)
-        p.model.add_subsystem('f', om.ExecComp('y = %r*x + %r' % (a, b), x=np.ones(shp),
-                                               y={'val': np.ones(shp), 'units': o['eq_units']}))
-        p.model.add_subsystem('bal', c2)
-        p.model.connect('bal.' + o['name'], 'f.x')
-        p.model.connect('f.y', 'bal.' + ln)
-        p.model.connect('ivc.r', 'bal.' + rn)
-        if o['use_mult']:
-            p.model.connect('ivc.m', 'bal.' + mn)
-        p.model.linear_solver = om.DirectSolver()
-        nl = p.model.nonlinear_solver = om.NewtonSolver(solve_subsystems=False, maxiter=30, atol=1e-13, rtol=1e-13,
-                                                        iprint=-1)
-        p.setup()
-        rhs = np.array(o['rhs']).reshape(shp)
-        mult = np.array(o['mult']).reshape(shp)
-        p.set_val('ivc.r', rhs)
-        if o['use_mult']:
-            p.set_val('ivc.m', mult)
-        p.run_model()
-        x = np.asarray(p.get_val('bal.' + o['name']), dtype=float).reshape(shp)
-        p.cleanup()
-        del single
+        try:
+            p = om.Problem()
+            iv = p.model.add_subsystem('ivc', om.IndepVarComp())
+            iv.add_output('r', val=np.ones(shp), units=o['eq_units'])
+            if o['use_mult']:
+                iv.add_output('m', val=np.ones(shp))
+            c2 = om.BalanceComp(guess_func=guess)
+            kw = dict(eq_units=o['eq_units'], use_mult=o['use_mult'], normalize=o['normalize'], val=np.ones(shp))
+            if o['custom_names']:
+                kw.update(lhs_name=ln, rhs_name=rn, mult_name=mn)
+            c2.add_balance(o['name'], **kw)
+            p.model.add_subsystem('f', om.ExecComp('y = %r*x + %r' % (a, b), x=np.ones(shp),
+                                                   y={'val': np.ones(shp), 'units': o['eq_units']}))
+            p.model.add_subsystem('bal', c2)
+            p.model.connect('bal.' + o['name'], 'f.x')
+            p.model.connect('f.y', 'bal.' + ln)
+            p.model.connect('ivc.r', 'bal.' + rn)
+            if o['use_mult']:
+                p.model.connect('ivc.m', 'bal.' + mn)
+            p.model.linear_solver = om.DirectSolver()
+            p.model.nonlinear_solver = om.NewtonSolver(solve_subsystems=False, maxiter=30, atol=1e-13, rtol=1e-13,
+                                                       iprint=-1)
+            if smode:
+                p.setup(mode=smode)
+            else:
+                p.setup()
+            rhs = np.array(o['rhs']).reshape(shp)
+            mult = np.array(o['mult']).reshape(shp)
+            p.set_val('ivc.r', rhs)
+            if o['use_mult']:
+                p.set_val('ivc.m', mult)
+            p.run_model()
+            x = np.asarray(p.get_val('bal.' + o['name']), dtype=float).reshape(shp)
+        except Exception as e:
+            ctx.viol('solve-raises:' + type(e).__name__, '%s: %s' % (type(e).__name__, str(e)[:300]))
+            finish(ctx)
+            return
+
+        def judge_solved(pre, x, rhs, mult, ncalls_before):
+            m_ = mult if o['use_mult'] else 1.0
+            xref = (rhs / m_ - b) / a
+            acc.count('obs:balance-solved')
+            if len(guess_calls) <= ncalls_before:
+                ctx.viol(pre + 'guess_func-not-called', 'guess_func was never invoked during the Newton solve')
+            # the Newton residual tolerance 1e-13 on the (normalized) residual bounds the state error by
+            # 1e-13 * f_norm / (|mult| a); compare with a 1e-9 absolute/relative band well above it
+            if not np.all(np.isfinite(x)) or np.any(np.abs(x - xref) > 1e-9 * (1.0 + np.abs(xref))):
+                ctx.viol(pre + 'solved-state', 'balance state %s, expected %s' % (x.ravel()[:4], np.ravel(xref)[:4]))
+            if not pre:
+                return
+            # totals of the converged state: dx/drhs = 1/(mult a), dx/dmult = -rhs/(mult^2 a)  (diagonal);
+            # they depend on the state only through the (<= 1e-13) residual, same band
+            wrt = ['ivc.r'] + (['ivc.m'] if o['use_mult'] else [])
+            tot = p.compute_totals(of=['bal.' + o['name']], wrt=wrt, return_format='flat_dict')
+            refs = {'ivc.r': np.diag(np.ravel(1.0 / (m_ * a) * np.ones(shp)))}
+            if o['use_mult']:
+                refs['ivc.m'] = np.diag(np.ravel(-rhs / (m_ ** 2 * a)))
+            for w in wrt:
+                acc.count('obs:totals-' + smode)
+                got = np.asarray(tot['bal.' + o['name'], w], dtype=float)
+                if got.shape != refs[w].shape or not np.all(np.isfinite(got)) or \
+                        np.any(np.abs(got - refs[w]) > 1e-9 * (1.0 + np.abs(refs[w]))):
+                    ctx.viol(pre + 'solved-totals-' + smode, 'd state/d %s: %s' % (w, worst(got, refs[w])))
+
+        judge_solved('', x, rhs, mult, 0)
+        if hist and not ctx.bad:
+            hrng = np.random.default_rng([hist['hseed'], 4])
+            tag = 'resolve'
+            for r in range(hist['rounds']):
+                n0 = len(guess_calls)
+                if (not o['use_mult']) or hrng.random() < 0.7:
+                    rhs = _rhs_vals(hrng, shp)
+                    p.set_val('ivc.r', rhs)
+                if o['use_mult'] and hrng.random() < 0.7:
+                    mult = rnd(hrng, shp, 0.3, 3)
+                    p.set_val('ivc.m', mult)
+                p.run_model()
+                acc.count('hist:balance-resolve')
+                x = np.asarray(p.get_val('bal.' + o['name']), dtype=float).reshape(shp)
+                judge_solved('resolve:', x, rhs, mult, n0)
+                if ctx.bad:
+                    break
     except Exception as e:
-        ctx.viol('solve-raises:' + type(e).__name__, '%s: %s' % (type(e).__name__, str(e)[:300]))
-        finish(ctx)
-        return
-    m_ = mult if o['use_mult'] else 1.0
-    xref = (rhs / m_ - b) / a
-    acc.count('obs:balance-solved')
-    if not guess_calls:
-        ctx.viol('guess_func-not-called', 'guess_func was never invoked during the Newton solve')
-    # the Newton residual tolerance 1e-13 on the (normalized) residual bounds the state error by
-    # 1e-13 * f_norm / (|mult| a); compare with a 1e-9 absolute/relative band well above it
-    if not np.all(np.isfinite(x)) or np.any(np.abs(x - xref) > 1e-9 * (1.0 + np.abs(xref))):
-        ctx.viol('solved-state', 'balance state %s, expected %s' % (x.ravel()[:4], np.ravel(xref)[:4]))
+        if tag == 'solve' or str(e).startswith('harness:'):
+            raise
+        ctx.viol(tag + ':raises:' + type(e).__name__, '%s: %s' % (type(e).__name__, str(e)[:300]))
+    finally:
+        if p is not None:
+            _cleanup(p)
     if len(outs_o) > 1:
         acc.count('cell:multi')
     finish(ctx)
@@ -801,82 +1477,90 @@ def gen_linsys(rng):
             'A': A.tolist(), 'b': b.tolist(), 'mode': str(pick(rng, ['fwd', 'rev']))}
 
 
-def judge_linsys(case, acc, seed):
+def spec_linsys(case):
     import openmdao.api as om
     o = case['opts']
     size, vs, vecA = o['size'], o['vec_size'], o['vectorize_A']
-    oc = ('vec1' if vs == 1 else 'vecN') + ('+vectorize_A' if vecA else '')
-    ctx = Ctx(case, acc, 'LinearSystemComp', oc)
-    mode = case['mode']
+    hist = case.get('hist')
+    auto = bool(hist and hist.get('auto'))
     A = np.array(case['A'], dtype=float)
     b = np.array(case['b'], dtype=float)
-    try:
-        prob = om.Problem()
-        ivc = prob.model.add_subsystem('ivc', om.IndepVarComp())
-        ivc.add_output('A', val=np.ones(A.shape))
-        ivc.add_output('b', val=np.ones(b.shape))
-        ls = prob.model.add_subsystem('ls', om.LinearSystemComp(size=size, vec_size=vs, vectorize_A=vecA))
-        prob.model.connect('ivc.A', 'ls.A')
-        prob.model.connect('ivc.b', 'ls.b')
-        prob.setup(mode=mode)
-        prob.set_val('ivc.A', A)
-        prob.set_val('ivc.b', b)
-        prob.run_model()
-        x = np.asarray(prob.get_val('ls.x'), dtype=float)
-        prob.model.run_apply_nonlinear()
-        res = np.asarray(ls._residuals['x'], dtype=float).copy()
-        tot = prob.compute_totals(of=['ls.x'], wrt=['ivc.A', 'ivc.b'], return_format='flat_dict')
-    except Exception as e:
-        ctx.viol('raises:' + type(e).__name__, '%s: %s' % (type(e).__name__, str(e)[:300]))
-        finish(ctx)
-        return
+    ins = [_inp('A', A.shape, A, kind='A'), _inp('b', b.shape, b)]
+    for i in ins:
+        i['auto'] = auto
+    outs = [{'name': 'x', 'shape': list(b.shape), 'units': None}]
 
-    def solve(a):
+    def make():
+        return om.LinearSystemComp(size=size, vec_size=vs, vectorize_A=vecA)
+
+    def ref(a):
         return [R.linear_system_solve(a[0], a[1], vs, vecA)]
 
-    o0, J0, Do, DJ = perturbed_spread(solve, [A, b], seed)
-    acc.count('obs:output')
-    if tuple(x.shape) != tuple(b.shape):
-        ctx.viol('output-shape', 'x has shape %s, documented %s' % (x.shape, b.shape))
-    else:
-        _cmp(ctx, 'output', 'solution x', x, o0[0], tol_of(o0[0], Do[0]))
-    # residual at the solution is zero up to the conditioning-scaled round-off of the solve
-    acc.count('obs:residual')
-    rscale = np.max(np.abs(A)) * np.max(np.abs(o0[0])) + np.max(np.abs(b))
-    if not np.all(np.abs(res) <= 64 * EPS * size * rscale):
-        ctx.viol('residual-at-solution', 'residual %s after solve_nonlinear' % res.ravel()[:4])
-    for k, n in enumerate(('A', 'b')):
-        acc.count('obs:totals-' + mode)
-        ref = J0[0][k]
-        _cmp(ctx, 'totals-' + mode, 'total dx/d' + n, tot['ls.x', 'ivc.' + n], ref,
-             tol_of(ref, DJ[0][k]) + 64 * EPS * np.abs(ref))
-    # partials of R = A x - b at a state that is NOT the solution
-    xs = rnd(np.random.default_rng(seed + 17), b.shape)
-    try:
-        prob.set_val('ls.x', xs)
-        prob.model.run_apply_nonlinear()
-        res = np.asarray(ls._residuals['x'], dtype=float).copy()
-        prob.model.run_linearize()
-    except Exception as e:
-        ctx.viol('linearize-raises:' + type(e).__name__, str(e)[:300])
+    def extra(ctx, pre, prob, ls, xs, seed):
+        acc = ctx.acc
+        A, b = xs
+        xsol = R.linear_system_solve(A, b, vs, vecA)
+        # residual at the solution is zero up to the conditioning-scaled round-off of the solve
+        try:
+            prob.model.run_apply_nonlinear()
+            res = np.asarray(ls._residuals['x'], dtype=float).copy()
+        except Exception as e:
+            ctx.viol(pre + 'raises:' + type(e).__name__, '%s: %s' % (type(e).__name__, str(e)[:300]))
+            return
+        acc.count('obs:residual')
+        rscale = np.max(np.abs(A)) * np.max(np.abs(xsol)) + np.max(np.abs(b))
+        if not np.all(np.abs(res) <= 64 * EPS * size * rscale):
+            ctx.viol(pre + 'residual-at-solution', 'residual %s after solve_nonlinear' % res.ravel()[:4])
+        # partials of R = A x - b at a state that is NOT the solution
+        xst = rnd(np.random.default_rng(seed + 17), b.shape)
+        try:
+            prob.set_val('c.x', xst)
+            prob.model.run_apply_nonlinear()
+            res = np.asarray(ls._residuals['x'], dtype=float).copy()
+            prob.model.run_linearize()
+        except Exception as e:
+            ctx.viol(pre + 'linearize-raises:' + type(e).__name__, str(e)[:300])
+            return
+
+        def resid(a):
+            return [R.linear_system_residual(a[0], a[1], a[2], vs, vecA)]
+
+        r0, Jr, Dr, DJr = perturbed_spread(resid, [A, b, xst], seed + 1)
+        _cmp(ctx, pre + 'residual', 'residual A x - b', res, r0[0], tol_of(r0[0], Dr[0]) + 64 * EPS * rscale)
+        for k, n in enumerate(('A', 'b', 'x')):
+            acc.count('obs:partials')
+            sj = dense_subjac(ls, 'x', n)
+            rj = Jr[0][k]
+            if sj is None:
+                ctx.viol(pre + 'partials-undeclared-nonzero', 'dR/d%s not declared' % n)
+            else:
+                _cmp(ctx, pre + 'partials', 'partial dR/d' + n, sj, rj, tol_of(rj, DJr[0][k]) + 16 * EPS * np.abs(rj))
+
+    def on_rerun(ctx, which, old, new):
+        if vs > 1 and 0 in which:
+            ctx.acc.count('hist:linsys-vecN-new-A')
+
+    def add_item(ls, o2):
+        for k in ('size', 'vec_size', 'vectorize_A'):
+            ls.options[k] = o2[k]
+
+    def extend(rng):
+        """other options for the second setup (possible when the inputs are not wired to an IndepVarComp)"""
+        c2 = gen_linsys(rng)
+        c2['mode'], c2['hist'], c2['seed'] = case['mode'], case.get('hist'), case.get('seed')
+        return c2, c2['opts'], 'hist:linsys-resetup-options'
+
+    return {'ins': ins, 'outs': outs, 'make': make, 'ref': ref, 'partials': False, 'extra': extra,
+            'on_rerun': on_rerun, 'lnbgs_ok': True, 'add_item': add_item, 'extend': extend if auto else None}
+
+
+def judge_linsys(case, acc, seed):
+    o = case['opts']
+    vs, vecA = o['vec_size'], o['vectorize_A']
+    oc = ('vec1' if vs == 1 else 'vecN') + ('+vectorize_A' if vecA else '')
+    ctx = Ctx(case, acc, 'LinearSystemComp', oc)
+    if run_flow(ctx, spec_linsys, seed):
         finish(ctx)
-        return
-
-    def resid(a):
-        return [R.linear_system_residual(a[0], a[1], a[2], vs, vecA)]
-
-    r0, Jr, Dr, DJr = perturbed_spread(resid, [A, b, xs], seed + 1)
-    _cmp(ctx, 'residual', 'residual A x - b', res, r0[0], tol_of(r0[0], Dr[0]) + 64 * EPS * rscale)
-    for k, n in enumerate(('A', 'b', 'x')):
-        acc.count('obs:partials')
-        sj = dense_subjac(ls, 'x', n)
-        ref = Jr[0][k]
-        if sj is None:
-            ctx.viol('partials-undeclared-nonzero', 'dR/d%s not declared' % n)
-        else:
-            _cmp(ctx, 'partials', 'partial dR/d' + n, sj, ref, tol_of(ref, DJr[0][k]) + 16 * EPS * np.abs(ref))
-    prob.cleanup()
-    finish(ctx)
 
 
 # ----------------------------------------------------------------------------------------------
@@ -956,15 +1640,23 @@ def gen_spline(rng, method=None):
     return {'comp': 'SplineComp', 'opts': opts, 'mode': str(pick(rng, ['fwd', 'rev']))}
 
 
-def judge_spline(case, acc, seed):
+def _new_x_interp(rng, method, grid):
+    if method == 'bsplines':
+        lo = float(np.round(rng.uniform(-2, 2), 3))
+        x = np.linspace(lo, lo + float(np.round(rng.uniform(0.5, 3), 3)), int(rng.integers(3, 9)))
+        if rng.random() < 0.5:   # non-uniform interior points
+            x[1:-1] = np.sort(np.round(rng.uniform(x[0] + 1e-3, x[-1] - 1e-3, size=len(x) - 2), 6))
+        return x
+    span = grid[-1] - grid[0]
+    return np.sort(np.round(rng.uniform(grid[0] + 1e-3 * span, grid[-1] - 1e-3 * span,
+                                        size=int(rng.integers(1, 8))), 6))
+
+
+def spec_spline(case):
     import openmdao.api as om
     o = case['opts']
     method, vs = o['method'], o['vec_size']
     x = np.array(o['x_interp'], dtype=float)
-    ctx = Ctx(case, acc, 'SplineComp', method +
-              ('+n_interp==vec_size' if (method == 'bsplines' and len(x) == vs) else '') +
-              ('+4cp' if (method == 'akima' and len(o['splines'][0]['y'][0]) == 4) else '') +
-              ('+num_cp' if 'num_cp' in o and method != 'bsplines' else ''))
     if method == 'bsplines':
         grid = None
     elif 'x_cp' in o:
@@ -972,18 +1664,21 @@ def judge_spline(case, acc, seed):
     else:
         grid = np.linspace(0.0, 1.0, o['num_cp'])
     order = o.get('order', 4)
-    if method == 'akima':
-        for s in o['splines']:
-            for row in np.array(s['y'], dtype=float):
+
+    def guard(xs):
+        if method != 'akima':
+            return None
+        for y in xs:
+            for row in np.asarray(y, dtype=float):
                 mm = np.diff(row) / np.diff(grid)
                 mm = np.concatenate([[2 * (2 * mm[0] - mm[1]) - mm[0], 2 * mm[0] - mm[1]], mm,
                                      [2 * mm[-1] - mm[-2], 2 * (2 * mm[-1] - mm[-2]) - mm[-1]]])
                 if np.min(np.abs(np.diff(mm))) < 0.05:
-                    acc.skip('akima-near-weight-kink')
-                    return
+                    return 'akima-near-weight-kink'
                 ref_s = R.spline('akima', grid, row, x)
                 if not np.allclose(_akima(grid, row, x), ref_s, rtol=1e-11, atol=1e-12):
                     raise RuntimeError('harness: own Akima reference disagrees with SciPy')
+        return None
 
     def one(meth, yrow):
         if meth == 'akima':
@@ -991,7 +1686,20 @@ def judge_spline(case, acc, seed):
         return R.spline(meth, grid, yrow, x, order=order)
 
     ins = [_inp(s['cp'], (vs, len(s['y'][0])), s['y'], s['units'], s['src_units']) for s in o['splines']]
-    outs = [{'name': s['out'], 'shape': [vs, len(x)]} for s in o['splines']]
+    outs = [{'name': s['out'], 'shape': [vs, len(x)], 'units': s['units']} for s in o['splines']]
+
+    def add_spline(c, s):
+        if s['give_val']:
+            c.add_spline(y_cp_name=s['cp'], y_interp_name=s['out'], y_cp_val=np.ones((vs, len(s['y'][0]))),
+                         y_units=s['units'])
+        else:
+            c.add_spline(y_cp_name=s['cp'], y_interp_name=s['out'], y_units=s['units'])
+
+    def add_item(c, item):
+        if item.get('x_interp') is not None:
+            c.options['x_interp_val'] = np.array(item['x_interp'], dtype=float)
+        if item.get('spline') is not None:
+            add_spline(c, item['spline'])
 
     def make():
         kw = dict(method=method, x_interp_val=x.copy(), vec_size=vs)
@@ -1005,17 +1713,43 @@ def judge_spline(case, acc, seed):
             kw['num_cp'] = o['num_cp']
         c = om.SplineComp(**kw)
         for s in o['splines']:
-            if s['give_val']:
-                c.add_spline(y_cp_name=s['cp'], y_interp_name=s['out'], y_cp_val=np.ones((vs, len(s['y'][0]))),
-                             y_units=s['units'])
-            else:
-                c.add_spline(y_cp_name=s['cp'], y_interp_name=s['out'], y_units=s['units'])
+            add_spline(c, s)
         return c
 
     def ref(xs):
         return [np.array([one(method, row) for row in y]) for y in xs]
 
-    run_explicit(ctx, make, ins, outs, ref, seed)
+    def extend(rng):
+        c2 = copy.deepcopy(case)
+        item = {'x_interp': None, 'spline': None}
+        cnt = []
+        what = int(rng.integers(3))          # new spline, new interpolation points, both
+        if what != 1:
+            u, su = units_pair(rng, 0.3)
+            n_cp = len(o['splines'][0]['y'][0])
+            k = len(o['splines'])
+            item['spline'] = {'cp': 'xycp%d' % k, 'out': 'xy%d' % k, 'units': u, 'src_units': su,
+                              'y': rnd(rng, (vs, n_cp)).tolist(), 'give_val': bool(rng.random() < 0.5)}
+            c2['opts']['splines'].append(item['spline'])
+        if what != 0:
+            item['x_interp'] = _new_x_interp(rng, method, grid).tolist()
+            c2['opts']['x_interp'] = item['x_interp']
+            cnt.append('hist:spline-new-x_interp')
+        return (c2, item) + tuple(cnt)
+
+    return {'ins': ins, 'outs': outs, 'make': make, 'ref': ref, 'guard': guard, 'add_item': add_item,
+            'extend': extend}
+
+
+def judge_spline(case, acc, seed):
+    o = case['opts']
+    method, vs = o['method'], o['vec_size']
+    ctx = Ctx(case, acc, 'SplineComp', method +
+              ('+n_interp==vec_size' if (method == 'bsplines' and len(o['x_interp']) == vs) else '') +
+              ('+4cp' if (method == 'akima' and len(o['splines'][0]['y'][0]) == 4) else '') +
+              ('+num_cp' if 'num_cp' in o and method != 'bsplines' else ''))
+    if not run_flow(ctx, spec_spline, seed):
+        return
     acc.count('spline:' + method)
     if len(o['splines']) > 1:
         acc.count('cell:multi')
@@ -1052,15 +1786,18 @@ def shards(tier, seed):
 
 def run_shard(shard, acc):
     rng = np.random.default_rng(shard['seed'])
+    hrng = np.random.default_rng([shard['seed'], 26])      # history plans: a stream of their own
     for rep in range(shard['per']):
         for comp in COMPS:
             case = GEN[comp](rng)
             case['seed'] = int(shard['seed'] * 1000 + rep)
+            case['hist'] = gen_hist(hrng)
             JUDGE[comp](case, acc, case['seed'])
         # every spline method in turn so that each shard reaches all of them over its repetitions
         m = SPLINE_METHODS[(shard['k'] + rep) % len(SPLINE_METHODS)]
         case = gen_spline(rng, m)
         case['seed'] = int(shard['seed'] * 1000 + rep)
+        case['hist'] = gen_hist(hrng)
         judge_spline(case, acc, case['seed'])
 
 
